@@ -125,17 +125,17 @@ def foreign_worker_rows(ctx: Ctx, rule: str) -> None:
 
 
 def run(ctx: Ctx) -> None:
-    T.t_w1(ctx, "1/T.W1")
-    foreign_worker_rows(ctx, "2")
-    N.readiness_table(ctx, "3s", "setup")
-    N.readiness_table(ctx, "3c", "cleanup")
-    N.pick_agreement(ctx, "3ps", "setup")
-    N.pick_agreement(ctx, "3pc", "cleanup")
-    pass_only_rule(ctx, "4")
-    pull_locations_rule(ctx, "5")
-    access_params_rule(ctx, "6")
-    run_task_rule(ctx, "7")
-    T.t_o1(ctx, "5o/T.O1")
+    ctx.call(T.t_w1, "1/T.W1")
+    ctx.call(foreign_worker_rows, "2")
+    ctx.call(N.readiness_table, "3s", "setup")
+    ctx.call(N.readiness_table, "3c", "cleanup")
+    ctx.call(N.pick_agreement, "3ps", "setup")
+    ctx.call(N.pick_agreement, "3pc", "cleanup")
+    ctx.call(pass_only_rule, "4")
+    ctx.call(pull_locations_rule, "5")
+    ctx.call(access_params_rule, "6")
+    ctx.call(run_task_rule, "7")
+    ctx.call(T.t_o1, "5o/T.O1")
 
 
 G = "cartgraph/graph.py"
